@@ -20,6 +20,8 @@ mod fam_abt;
 mod fam_vtime;
 mod fam_nfs;
 mod fam_stream;
+mod iterscript;
+mod fam_streamw;
 mod util;
 mod unwind;
 
@@ -44,6 +46,8 @@ fn families() -> Vec<Box<dyn Family>> {
     v.push(Box::new(fam_nfs::NfsFamily));
     v.push(Box::new(fam_stream::ChunkerFamily));
     v.push(Box::new(fam_stream::ReaderFamily));
+    v.push(Box::new(fam_streamw::ChunkerWFamily));
+    v.push(Box::new(fam_streamw::ReaderWFamily));
     v
 }
 
